@@ -237,3 +237,14 @@ func vRunNative(h func()) (outcome string) {
 var vHarnesses = map[string]func(){}
 
 var vReplayAttempts = 5
+
+func vUseLemma(name string) {}
+
+func vI8(name string) int8 { return int8(vBits(name)) }
+
+// vGrid32: a float32 on the dyadic grid {k/4 : -32 <= k < 32} (T2-grid domain, DESIGN.md §3.3).
+func vGrid32(name string) float32 {
+	k := vI8(name)
+	vAssume(vAnd(k >= -32, k < 32))
+	return float32(k) / 4
+}
